@@ -656,6 +656,95 @@ theorem means_fixed_single_row (m n : Nat) (E : Evals K) :
     cases x <;> simp [strictMean, present, fsum]
   simp [getMeansFixed, List.range_succ, h1]
 
+/-! ### round 7: the per-model specification of `get_means` (a model without values) -/
+
+theorem nanMean_singleton (x : Option K) : nanMean [x] = x := by
+  cases x <;> simp [nanMean, present, fsum]
+
+/-- The mean reported for model `j` is the NaN-aware average of model `j`'s own per-sample values and
+    of nothing else: two evaluation arrays that agree on model `j` give model `j` the same mean,
+    whatever the other models hold (no value at all, values in some samples only). -/
+theorem means_spec_model_local (nB m : Nat) (shape : List Nat) (E E' : Evals K) (j : Nat) (hj : j < m)
+    (h : ∀ r idx, E r j idx = E' r j idx) :
+    (getMeansSpec nB m shape E)[j]? = (getMeansSpec nB m shape E')[j]? ∧
+    (getMeansSpec nB m shape E)[j]? =
+      some (nanMean ((List.range nB).map (fun r => cell shape E r j))) := by
+  have hc : ∀ r, cell shape E r j = cell shape E' r j := by
+    intro r
+    have : E r j = E' r j := funext (h r)
+    simp only [cell, this]
+  simp [getMeansSpec, List.getElem?_range hj, hc]
+
+/-- the mean of model `j` is NaN exactly when model `j` has no value in any sample -/
+theorem means_spec_nan_iff (nB m : Nat) (shape : List Nat) (E : Evals K) (j : Nat) (hj : j < m) :
+    (getMeansSpec nB m shape E)[j]? = some none ↔ ∀ r, r < nB → cell shape E r j = none := by
+  simp only [getMeansSpec, List.getElem?_map, List.getElem?_range hj, Option.map_some,
+    Option.some.injEq, (means_nan_aware _ ([] : List K)).2.2]
+  simp
+
+-- non-vacuity: first model without values, second model with values 1 and 3: means NaN and 2
+example : getMeansSpec 2 2 [] (fun r j _ => if j = 0 then none else some ((2 * r + 1 : Nat) : Rat))
+    = [none, some 2] := by decide +kernel
+
+/-- the coded bootstrap path on the same input loses every mean (the rows to keep are read off the
+    first model): the whole-row hypothesis of `means_boot_eq_spec_of_whole_rows` is needed -/
+example : getMeansBoot 2 2 [] (fun r j _ => if j = 0 then none else some ((2 * r + 1 : Nat) : Rat))
+    = [none, none] := by decide +kernel
+
+/-- `get_means` of a fixed / cross-validation result (one row) is the specification -/
+theorem means_fixed_eq_spec (m n : Nat) (E : Evals K) :
+    getMeansFixed 1 m n E = getMeansSpec 1 m [n] E := by
+  rw [means_fixed_single_row]
+  simp [getMeansSpec, cell, reduceTrailing, List.range_one, nanMean_singleton]
+
+theorem strictMean_filter_isSome {ι : Type} (l : List ι) (f : ι → Option K) :
+    strictMean ((l.filter (fun r => (f r).isSome)).map f) = nanMean (l.map f) := by
+  have aux : ∃ xs : List K, (l.filter (fun r => (f r).isSome)).map f = xs.map some
+      ∧ present (l.map f) = xs := by
+    induction l with
+    | nil => exact ⟨[], by simp [present]⟩
+    | cons a t ih =>
+      obtain ⟨xs, h1, h2⟩ := ih
+      cases hfa : f a with
+      | none =>
+        refine ⟨xs, by simp [List.filter_cons, hfa, h1], ?_⟩
+        simpa [present, hfa] using h2
+      | some v =>
+        refine ⟨v :: xs, by simp [List.filter_cons, hfa, h1], ?_⟩
+        simpa [present, hfa] using h2
+  obtain ⟨xs, h1, h2⟩ := aux
+  have hp : present (xs.map some) = xs := by simp [present, List.filterMap_map]
+  rw [h1]
+  cases xs with
+  | nil => simp [strictMean, nanMean, h2]
+  | cons v t =>
+    have hp' : present (some v :: List.map some t) = v :: t := by simpa using hp
+    simp [strictMean, nanMean, h2, hp']
+
+/-- On evaluations whose failed samples are whole rows (`hrows`: in every sample all models have a
+    value or none has) the coded bootstrap path of `get_means` is the specification. -/
+theorem means_boot_eq_spec_of_whole_rows (nB m : Nat) (shape : List Nat) (E : Evals K)
+    (hrows : ∀ r j, r < nB → j < m → (cell shape E r j).isSome = (cell shape E r 0).isSome) :
+    getMeansBoot nB m shape E = getMeansSpec nB m shape E := by
+  simp only [getMeansBoot, getMeansSpec]
+  apply List.map_congr_left
+  intro j hj
+  rw [List.mem_range] at hj
+  have hv : validRows nB shape E = (List.range nB).filter (fun r => (cell shape E r j).isSome) := by
+    simp only [validRows]
+    apply List.filter_congr
+    intro r hr
+    rw [List.mem_range] at hr
+    exact (hrows r j hr hj).symm
+  rw [hv]
+  exact strictMean_filter_isSome (List.range nB) (fun r => cell shape E r j)
+
+-- non-vacuity: two samples, the second failed as a whole row
+example : ∀ r j, r < 2 → j < 2 →
+    (cell [] (fun r _ _ => if r = 0 then some (1 : Rat) else none) r j).isSome
+      = (cell [] (fun r _ _ => if r = 0 then some (1 : Rat) else none) r 0).isSome :=
+  fun _ _ _ _ => rfl
+
 end means
 
 /-- standard errors are non-negative, and their square is the (non-negative) model variance -/
@@ -742,6 +831,16 @@ theorem model_perm_equivariant (nB m : Nat) (shape : List Nat) (E : Evals K) (σ
       rw [List.mem_range] at hi; simp [permCov, hpi i hi])
   · simp only [extract3]
     exact List.map_congr_left (fun p hp => by rw [hdiff V0 p hp, hdiff V1 p hp, hdiff V2 p hp])
+
+/-- round 7: the specified means of the permuted model list are the permuted means, for ANY
+    evaluations (no whole-row hypothesis): a model without values may sit first, in the middle or
+    last. -/
+theorem means_spec_perm_equivariant (nB m : Nat) (shape : List Nat) (E : Evals K) (σ : Nat → Nat)
+    (hσ : ∀ i, i < m → σ i < m) (j : Nat) (hj : j < m) :
+    (getMeansSpec nB m shape (permEvals σ E))[j]? = (getMeansSpec nB m shape E)[σ j]? := by
+  simp only [getMeansSpec, List.getElem?_map, List.getElem?_range hj, List.getElem?_range (hσ j hj),
+    Option.map_some, cell]
+  rfl
 
 end perm
 
